@@ -45,6 +45,10 @@ Verdict(e) ==
   LET c == e.c o == e.o IN
   IF e.outcome # "ok" THEN "reject:raised_" \o e.outcome
   ELSE CASE c.op = "split" -> (LET v == SplitOK(c.n, 16, o.w, o.f) IN IF v # "ok" THEN R(v) ELSE D(o.w = Whole(c.n, 16), "split_differs_from_model"))
+    \* maybe_zero: exactly zero inside the tolerance, the value itself outside (tolerance tn / td, value n / 1024)
+    [] c.op = "maybezero" -> R(IF Abs(c.n) * c.tol[2] < c.tol[1] * 1024 THEN (IF o.v = 0 THEN "ok" ELSE "near_zero_value_not_turned_into_zero")
+                              ELSE IF o.v = c.n THEN "ok" ELSE "value_outside_the_tolerance_was_changed")
+    [] c.op = "clamp" -> R(IF o.v = (IF c.n < c.lo THEN c.lo ELSE IF c.n > c.hi THEN c.hi ELSE c.n) THEN "ok" ELSE "clamp_result_not_the_nearest_value_of_the_interval")
     [] c.op = "nearint" -> (LET v == NearIntOK(c.n, 1024, c.tol[1], c.tol[2], o.mi, o.ai) IN IF v # "ok" THEN R(v) ELSE D(o.mi = MaybeIntModel(c.n, 1024, c.tol[1], c.tol[2]), "maybe_int_differs_from_model"))
     [] c.op = "snapscale" -> R(SnapScaleOK(c.small, c.n, 1024, c.tol[1], c.tol[2], o))
     [] c.op = "align" -> R(First([a \in 1..17 |-> AlignOK(c.x, a, o.dn[a], o.up[a])] \o <<Pow2OK(c.x, o.p2up, o.p2dn)>>))
